@@ -18,9 +18,9 @@ Definition isap128a := {| i_klen := 16; i_sH := 12; i_sB := 1;  i_sE := 6;  i_sK
 Definition isap128  := {| i_klen := 16; i_sH := 12; i_sB := 12; i_sE := 12; i_sK := 12 |}.
 Definition isap80pq := {| i_klen := 20; i_sH := 12; i_sB := 12; i_sE := 12; i_sK := 12 |}.
 
-(* bits of a byte string, most significant first *)
-Definition byte_bits (b : N) : list bool := map (fun i => N.testbit b (N.of_nat (7 - i))) (seq 0 8).
-Definition bits_of (l : bytes) : list bool := flat_map byte_bits l.
+(* bit i of a byte string, most significant bit of byte 0 first *)
+Definition bitat (data : bytes) (i : nat) : bool := N.testbit (nth (i / 8) data 0%N) (N.of_nat (7 - i mod 8)).
+Definition bits_of (l : bytes) : list bool := map (bitat l) (seq 0 (8 * length l)).
 
 Section WithPerm.
 Variable perm : nat -> bytes -> bytes.
